@@ -192,14 +192,14 @@ func runShellCase(c ShellCase, o *vk.Obs) string {
 type SplitCase struct {
 	// Pad > 0 prepends Pad filler bytes ('a' with a blank every 61 bytes) so
 	// that In lands on an internal buffer boundary (bufio's 4096-byte window).
-	Pad  int   `json:"pad,omitempty"`
+	Pad int `json:"pad,omitempty"`
 	// PadKind: 0 = words separated by blanks, 1 = one single-quoted run,
 	// 2 = one double-quoted run, 3 = one long unquoted word (all followed by a blank).
 	PadKind int `json:"padKind,omitempty"`
 	// Fields > 0 prepends that many one-letter fields ("x y z ...").
 	Fields int   `json:"fields,omitempty"`
 	In     []int `json:"in"`
-	Frag []int `json:"frag,omitempty"` // fragment lengths for the chunked reader (cyclic); empty = one byte at a time
+	Frag   []int `json:"frag,omitempty"` // fragment lengths for the chunked reader (cyclic); empty = one byte at a time
 }
 
 // fragReader delivers its data in the prescribed fragments; zero-length
